@@ -41,6 +41,21 @@ type threadCtx struct {
 	rdepth    map[*Value]int
 	recvWaits bool
 	trace     *ThreadTrace
+
+	full         *threadCtxFull
+	cands        map[string][]rfCand
+	atomics      map[string]bool
+	deltas       map[string][]int64
+	muteCells    int
+	foreignChans map[string]*Chan
+	lastMapEv    *SEvent
+	casFails     map[string]int
+	maxRMW       map[string]int
+
+	secCount map[string]int     // acquisitions of each mutex so far
+	heldSec  map[string]lockRef // currently held: mutex name -> mode/section
+	decided  map[string]bool    // "mutex|mySec|thread|theirSec" -> my section is AFTER theirs
+	ownWrote map[string]bool    // "mutex|mySec|cell" -> I wrote the cell in that section
 }
 
 // ThreadTrace is defined in sched.go
@@ -83,6 +98,14 @@ func (in *Interp) mapEvent(m *Map, kind string, key Value) {
 	}
 }
 func (in *Interp) chanEvent(c *Chan, kind string) {
+	if in.schedOn() {
+		name, ok := in.thread.full.chans[c]
+		if !ok {
+			name = fmt.Sprintf("%s:ch%d", in.thread.full.name, c.ID)
+		}
+		in.sev(&SEvent{Kind: "chan-" + kind, Obj: name})
+		return
+	}
 	if in.thread != nil || in.param("trace_events", 0) == 1 {
 		in.event(Event{Kind: "chan-" + kind, Obj: fmt.Sprintf("chan#%d", c.ID)})
 	}
@@ -192,6 +215,12 @@ func (in *Interp) addHarnessIntrinsics(m map[string]extFn) {
 	m["verif:verifThread"] = func(fr *frame, a []Value) Value {
 		in.declareThread(fr, a[0].(string), a[1])
 		return nil
+	}
+	m["verif:verifThreadName"] = func(fr *frame, a []Value) Value {
+		if in.schedOn() {
+			return in.thread.full.name
+		}
+		return ""
 	}
 	m["verif:verifPtrID"] = func(fr *frame, a []Value) Value {
 		// stable small integer identity for a pointer held in an interface
